@@ -343,18 +343,9 @@ pub fn gen_pair(r: &mut Rng, g: &PairGen) -> Vec<Tree> {
             }
         }
     }
-    // healing rounds: everything flushed is delivered, both ways, with ticks beyond the resend time
+    // healing: the network delivers again; the monitor then requires every submitted reliable message to arrive
     if r.chance(2, 3) {
-        for _ in 0..3 {
-            for s in 0..2 {
-                let o = 1 - s;
-                ops.push(op_update(sides[s].ep, 300 * MS));
-                ops.push(l(vec![n(62u8), ep_tree(sides[s].ep), ep_tree(sides[o].ep)]));
-                for c in sides[o].recv.clone() {
-                    ops.push(op_drain(sides[o].ep, c.id));
-                }
-            }
-        }
+        ops.push(l(vec![n(64u8), ep_tree(sides[0].ep), ep_tree(sides[1].ep), n(40u8)]));
         ops.push(op_status(sides[0].ep));
         ops.push(op_status(sides[1].ep));
     }
